@@ -1,56 +1,305 @@
+//! acts-sim — deterministic simulation harness for the acts workflow engine.
+mod checks;
+mod gen;
+mod imgx;
 mod interpose;
 mod model;
 mod obs;
+mod props;
 mod run;
 mod scenario;
+mod shrink;
 mod world;
 
-use model::*;
-use scenario::*;
+use checks::*;
+use serde_json::{json, Value};
+use std::collections::{BTreeMap, BTreeSet};
+use std::time::Instant;
 
-fn demo_model() -> MWorkflow {
-    let irq = |k: &str| MAct { key: k.into(), kind: ActKind::Irq, ..Default::default() };
-    MWorkflow {
-        id: "m".into(),
-        inputs: [("v".to_string(), serde_json::json!(0))].into_iter().collect(),
-        steps: vec![
-            MStep {
-                id: "s1".into(),
-                branches: vec![
-                    MBranch { id: "b1".into(), kind: BranchKind::If(Cond::Cmp(Expr::Var("v".into()), ">".into(), Expr::Const(1))), steps: vec![MStep { id: "sb1".into(), acts: vec![irq("k1")], ..Default::default() }] },
-                    MBranch { id: "b2".into(), kind: BranchKind::Else, steps: vec![MStep { id: "sb2".into(), acts: vec![irq("k2")], ..Default::default() }] },
-                ],
-                ..Default::default()
-            },
-            MStep { id: "s_end".into(), ..Default::default() },
-        ],
-        ..Default::default()
+fn arg<'a>(args: &'a [String], name: &str) -> Option<&'a str> {
+    args.iter().position(|a| a == name).and_then(|i| args.get(i + 1)).map(|s| s.as_str())
+}
+
+fn flag(args: &[String], name: &str) -> bool {
+    args.iter().any(|a| a == name)
+}
+
+pub fn case_seed(base: u64, check: &str, index: u64) -> u64 {
+    vsim::rng::mix(&[base, vsim::hash_str(check), index])
+}
+
+fn replay_value(def: &CheckDef, tier: &str, cs: u64, r: &shrink::Repro, extra: Value) -> Value {
+    json!({
+        "property": r.violation.property,
+        "check": def.id,
+        "tier": tier,
+        "case_seed": cs,
+        "scenario": r.scenario,
+        "decisions": r.decisions,
+        "expect": {"kind": r.violation.kind, "signature": r.violation.signature, "class": r.violation.class()},
+        "detail": r.violation.detail,
+        "log_hashes": r.log_hashes,
+        "info": extra,
+    })
+}
+
+fn worker(args: &[String]) -> i32 {
+    let id = arg(args, "--check").expect("--check");
+    let tier = arg(args, "--tier").unwrap_or("quick").to_string();
+    let base: u64 = arg(args, "--seed").and_then(|s| s.parse().ok()).unwrap_or(1);
+    let from: u64 = arg(args, "--from").and_then(|s| s.parse().ok()).unwrap_or(0);
+    let stride: u64 = arg(args, "--stride").and_then(|s| s.parse().ok()).unwrap_or(1);
+    let count: u64 = arg(args, "--count").and_then(|s| s.parse().ok()).unwrap_or(100);
+    let budget: f64 = arg(args, "--budget-s").and_then(|s| s.parse().ok()).unwrap_or(30.0);
+    let out_path = arg(args, "--out").expect("--out");
+    let det_every: u64 = arg(args, "--det-every").and_then(|s| s.parse().ok()).unwrap_or(40);
+    let Some(def) = find(id) else {
+        eprintln!("unknown check {id}");
+        return 2;
+    };
+    let t0 = Instant::now();
+    let mut cases = 0u64;
+    let mut runs = 0u64;
+    let mut nontrivial = 0u64;
+    let mut keys: BTreeSet<u64> = BTreeSet::new();
+    let mut shapes: BTreeSet<u64> = BTreeSet::new();
+    let mut scheds: BTreeSet<u64> = BTreeSet::new();
+    let mut outcomes: BTreeSet<u64> = BTreeSet::new();
+    let mut counters: BTreeMap<String, u64> = BTreeMap::new();
+    let mut sim_time_us: i64 = 0;
+    let mut steps = 0u64;
+    let mut vio: Vec<Value> = vec![];
+    let mut classes: BTreeMap<String, u64> = BTreeMap::new();
+    let mut samples: Vec<Value> = vec![];
+    let mut discarded: BTreeMap<String, u64> = BTreeMap::new();
+    let mut nondet: Vec<Value> = vec![];
+    let mut det_checked = 0u64;
+    let mut k = 0u64;
+    while k < count {
+        if t0.elapsed().as_secs_f64() > budget {
+            break;
+        }
+        let index = from + k * stride;
+        k += 1;
+        let cs = case_seed(base, id, index);
+        let mut ctx = CaseCtx::new(id, &tier, cs);
+        let out = (def.case)(&mut ctx);
+        cases += 1;
+        runs += ctx.runs;
+        sim_time_us += ctx.sim_time_us;
+        steps += ctx.steps;
+        for (k, v) in &ctx.counters {
+            if k == "sim.max_ready" {
+                let e = counters.entry(k.clone()).or_default();
+                *e = (*e).max(*v);
+            } else {
+                *counters.entry(k.clone()).or_default() += v;
+            }
+        }
+        if let Some(d) = &out.discarded {
+            let short: String = d.chars().take(80).collect();
+            *discarded.entry(short).or_default() += 1;
+            continue;
+        }
+        let (shape, fault) = out.scenario.as_ref().map(|s| (s.shape_hash(), s.fault_hash())).unwrap_or((0, 0));
+        shapes.insert(shape);
+        scheds.insert(ctx.sched_hash);
+        outcomes.insert(out.outcome_hash);
+        if out.nontrivial {
+            nontrivial += 1;
+            keys.insert(vsim::rng::mix(&[shape, ctx.sched_hash, fault]));
+            if samples.len() < 3 {
+                samples.push(json!({"case_index": index, "case_seed": cs, "case": out.sample}));
+            }
+        }
+        for v in &out.violations {
+            let c = v.class();
+            let n = classes.entry(c.clone()).or_default();
+            *n += 1;
+            if *n <= 2 {
+                let r = shrink::Repro { scenario: out.scenario.clone().unwrap_or_default(), decisions: ctx.decisions.clone(), violation: v.clone(), log_hashes: ctx.log_hashes.clone() };
+                vio.push(replay_value(&def, &tier, cs, &r, json!({"case_index": index, "base_seed": base})));
+            }
+        }
+        // determinism self-check: the same case again must give the same event-log hashes
+        if det_every > 0 && index % det_every == 0 {
+            let mut ctx2 = CaseCtx::new(id, &tier, cs);
+            let _ = (def.case)(&mut ctx2);
+            det_checked += 1;
+            if ctx2.log_hashes != ctx.log_hashes {
+                nondet.push(json!({"case_index": index, "case_seed": cs, "a": ctx.log_hashes, "b": ctx2.log_hashes}));
+            }
+        }
     }
+    let res = json!({
+        "check": id, "tier": tier, "base_seed": base, "from": from, "stride": stride,
+        "cases": cases, "runs": runs, "nontrivial": nontrivial,
+        "keys": keys.iter().collect::<Vec<_>>(),
+        "shapes": shapes.iter().collect::<Vec<_>>(),
+        "scheds": scheds.iter().collect::<Vec<_>>(),
+        "outcomes": outcomes.iter().collect::<Vec<_>>(),
+        "counters": counters, "sim_time_us": sim_time_us, "steps": steps,
+        "wall_s": t0.elapsed().as_secs_f64(),
+        "violations": vio, "violation_classes": classes,
+        "samples": samples, "discarded": discarded,
+        "nondeterminism": nondet, "det_checked": det_checked,
+        "rule": def.rule, "level": def.level, "assumptions": def.assumptions, "probes": def.probes, "title": def.title,
+    });
+    std::fs::write(out_path, serde_json::to_string(&res).unwrap()).expect("write out");
+    0
+}
+
+fn load_replay(path: &str) -> Result<(CheckDef, String, u64, scenario::Scenario, Vec<Vec<(u16, u32, u32)>>, String, Vec<u64>), String> {
+    let text = std::fs::read_to_string(path).map_err(|e| format!("{path}: {e}"))?;
+    let v: Value = serde_json::from_str(&text).map_err(|e| format!("{path}: {e}"))?;
+    let id = v["check"].as_str().ok_or("no check")?;
+    let def = find(id).ok_or(format!("unknown check {id}"))?;
+    let tier = v["tier"].as_str().unwrap_or("quick").to_string();
+    let cs = v["case_seed"].as_u64().ok_or("no case_seed")?;
+    let sc: scenario::Scenario = serde_json::from_value(v["scenario"].clone()).map_err(|e| format!("scenario: {e}"))?;
+    let dec: Vec<Vec<(u16, u32, u32)>> = serde_json::from_value(v["decisions"].clone()).map_err(|e| format!("decisions: {e}"))?;
+    let class = v["expect"]["class"].as_str().unwrap_or("").to_string();
+    let hashes: Vec<u64> = serde_json::from_value(v["log_hashes"].clone()).unwrap_or_default();
+    Ok((def, tier, cs, sc, dec, class, hashes))
+}
+
+/// exit 1: the recorded violation reproduced exactly; 0: no violation; 2: replay diverged / harness error
+fn replay(args: &[String]) -> i32 {
+    let path = args.iter().skip(2).find(|a| !a.starts_with("--")).expect("replay <file>");
+    let (def, tier, cs, sc, dec, class, hashes) = match load_replay(path) {
+        Ok(x) => x,
+        Err(e) => {
+            eprintln!("replay: {e}");
+            return 2;
+        }
+    };
+    let lenient = flag(args, "--lenient");
+    let fresh = flag(args, "--fresh-decisions");
+    let mut ctx = CaseCtx::new(def.id, &tier, cs);
+    ctx.scenario_override = Some(sc);
+    ctx.decisions_override = if fresh { None } else { Some(dec) };
+    ctx.strict = !lenient && !fresh;
+    ctx.keep_log = flag(args, "--log");
+    let out = (def.case)(&mut ctx);
+    if ctx.keep_log {
+        for (i, l) in ctx.logs.iter().enumerate() {
+            println!("---- run {i}");
+            for line in l {
+                println!("{line}");
+            }
+        }
+    }
+    if ctx.strict {
+        if let Some(d) = &ctx.diverged {
+            println!("REPLAY-DIVERGED {d}");
+            return 2;
+        }
+    }
+    for v in &out.violations {
+        println!("violation property={} kind={} signature={} :: {}", v.property, v.kind, v.signature, v.detail);
+    }
+    let same = out.violations.iter().any(|v| v.class() == class);
+    if same {
+        if ctx.strict && !hashes.is_empty() && hashes != ctx.log_hashes {
+            println!("REPLAY-DIVERGED event log hash differs from the recorded one");
+            return 2;
+        }
+        println!("REPRODUCED class={class}");
+        return 1;
+    }
+    if !out.violations.is_empty() {
+        println!("DIFFERENT-VIOLATION (expected class {class})");
+        return 1;
+    }
+    println!("NOT-REPRODUCED (expected class {class})");
+    0
+}
+
+fn shrink_cmd(args: &[String]) -> i32 {
+    let inp = arg(args, "--in").expect("--in");
+    let outp = arg(args, "--out").expect("--out");
+    let budget: f64 = arg(args, "--budget-s").and_then(|s| s.parse().ok()).unwrap_or(20.0);
+    let (def, tier, cs, sc, dec, class, _) = match load_replay(inp) {
+        Ok(x) => x,
+        Err(e) => {
+            eprintln!("shrink: {e}");
+            return 2;
+        }
+    };
+    // the starting point must reproduce (strictly)
+    let Some(start) = shrink::try_case(&def, &tier, cs, &sc, Some(dec), true, &class) else {
+        eprintln!("shrink: the input does not reproduce class {class}");
+        return 2;
+    };
+    let n0: usize = start.decisions.iter().map(|d| d.len()).sum();
+    let size0 = serde_json::to_string(&start.scenario).unwrap().len();
+    let (best, tried, kept) = shrink::shrink(&def, &tier, cs, start, budget);
+    let n1: usize = best.decisions.iter().map(|d| d.len()).sum();
+    let nz1: usize = best.decisions.iter().map(|d| d.iter().filter(|x| x.2 != 0).count()).sum();
+    let size1 = serde_json::to_string(&best.scenario).unwrap().len();
+    let v = replay_value(&def, &tier, cs, &best, json!({"shrink": {"candidates_tried": tried, "kept": kept, "scenario_bytes": [size0, size1], "decisions": [n0, n1], "nonzero_decisions": nz1}}));
+    std::fs::write(outp, serde_json::to_string_pretty(&v).unwrap()).expect("write");
+    println!("shrunk: scenario {size0}->{size1} bytes, decisions {n0}->{n1} ({nz1} non-default), {tried} candidates");
+    0
+}
+
+fn dump(args: &[String]) -> i32 {
+    let id = arg(args, "--check").expect("--check");
+    let base: u64 = arg(args, "--seed").and_then(|s| s.parse().ok()).unwrap_or(1);
+    let index: u64 = arg(args, "--index").and_then(|s| s.parse().ok()).unwrap_or(0);
+    let def = find(id).expect("check");
+    let cs = case_seed(base, id, index);
+    let mut ctx = CaseCtx::new(id, "quick", cs);
+    ctx.keep_log = true;
+    let out = (def.case)(&mut ctx);
+    if let Some(sc) = &out.scenario {
+        for m in &sc.models {
+            println!("{}", model::to_yaml(m));
+        }
+        let mut s2 = sc.clone();
+        s2.models.clear();
+        println!("{}", serde_json::to_string(&s2).unwrap());
+    }
+    for (i, l) in ctx.logs.iter().enumerate() {
+        println!("---- run {i}");
+        for line in l {
+            println!("{line}");
+        }
+    }
+    println!("nontrivial={} discarded={:?} counters={:?}", out.nontrivial, out.discarded, ctx.counters);
+    for v in &out.violations {
+        println!("VIOLATION {} {} {} :: {}", v.property, v.kind, v.signature, v.detail);
+    }
+    0
 }
 
 fn main() {
     run::install_panic_hook();
     world::install_state_hook();
     let args: Vec<String> = std::env::args().collect();
-    let n: u64 = args.get(1).and_then(|s| s.parse().ok()).unwrap_or(5);
-    let mut sc = Scenario::default();
-    sc.models.push(demo_model());
-    sc.starts.push(Start { model: "m".into(), vars: serde_json::Map::new(), pid: Some("p1".into()), at_q: 0 });
-    sc.engine.keep_processes = true;
-    sc.capture = true;
-    let t0 = std::time::Instant::now();
-    let mut unfinished = 0;
-    for seed in 0..n {
-        let r = run::run(&sc, run::RunOpts { seed, decisions: None, strict: false, keep_log: n <= 2 });
-        let r2 = run::run(&sc, run::RunOpts { seed, decisions: None, strict: false, keep_log: false });
-        assert_eq!(r.log_hash, r2.log_hash, "nondeterminism seed {seed}");
-        let fin = r.msgs.iter().any(|m| m.via == "complete" || m.via == "error");
-        if !fin { unfinished += 1; }
-        if n <= 2 {
-            for l in &r.log_lines { println!("{l}"); }
-            println!("panics={:?} steps={} finished={} counters={:?}", r.panics, r.steps, fin, r.counters);
+    let code = match args.get(1).map(|s| s.as_str()) {
+        Some("worker") => worker(&args),
+        Some("replay") => replay(&args),
+        Some("shrink") => shrink_cmd(&args),
+        Some("dump") => dump(&args),
+        Some("quick-cases") => match args.get(2).and_then(|id| find(id)) {
+            Some(c) => {
+                println!("{}", c.quick_cases);
+                0
+            }
+            None => 2,
+        },
+        Some("list") => {
+            for c in registry() {
+                println!("{} {}", c.id, c.title);
+            }
+            0
         }
-    }
-    println!("{} runs x2 in {:?}, unfinished {}", n, t0.elapsed(), unfinished);
+        _ => {
+            eprintln!("usage: acts-sim worker|replay|shrink|dump|list ...");
+            2
+        }
+    };
     world::cleanup_scratch();
+    std::process::exit(code);
 }
